@@ -51,6 +51,7 @@ type Spec struct {
 	Bounds      []string  `json:"bounds"`
 	ExtraPkgs   []string  `json:"extra_pkgs,omitempty"`
 	Models      []string  `json:"models,omitempty"` // contract models replacing third-party modules ("bart")
+	Parallel    int       `json:"parallel,omitempty"` // max concurrent jobs (heavy explorations)
 }
 
 // modelFlags prepares an alternate go.mod that replaces the modelled third-party modules by the contract models
@@ -477,6 +478,9 @@ func cmdCheck(args []string) int {
 		n = runtime.NumCPU()
 		if n > 16 {
 			n = 16
+		}
+		if sp.Parallel > 0 && sp.Parallel < n {
+			n = sp.Parallel
 		}
 	}
 	parGroups := 1
